@@ -334,6 +334,9 @@ func runC08(c *CaseCtx) (res CaseResult) {
 	if c.Idx%50 == 3 {
 		return runC08SameKey(c, r)
 	}
+	if c.Idx%37 == 12 {
+		return runC08ErrorOutput(c, r)
+	}
 	rc := genRedefine(r)
 	s := rc.S
 	res.Key = rc.String()
